@@ -53,7 +53,7 @@ E2E_RULE = {
             "non-advertising interfaces."),
     "C20": (" Whole-process part (36 / 1600 cases, one in four with an interface that does not exist): exit status 0 and no death by signal for "
             "SIGTERM/SIGINT/SIGHUP, exactly one connection per existing advertising/monitoring interface and none for others, each closed exactly "
-            "once and nothing written after, READY=1 exactly once when every task came up and never while an interface task cannot initialise; one case in eight delivers the signal while main() is still between signal.Notify and Serve (held inside BuildTasks by an undrained stderr pipe): the process must stop all the same."),
+            "once and nothing written after, READY=1 exactly once when every task came up and never while an interface task cannot initialise; one case in eight delivers the signal while main() is still between signal.Notify and Serve (held inside BuildTasks by an undrained stderr pipe): the process must stop all the same; and one case in eight sends no signal but lets one interface task hit a fatal (permission-class) receive error 0.3..1.5 s after start: every task must stop, every connection be closed once, and the process exit with status 1 reporting the failure."),
 }
 
 PROPS = {
